@@ -47,8 +47,8 @@ META = dict(
     stubs=["malloc / realloc / free / strlen / strcpy / memcpy / memmove: modelled by vf/llsym.py (allocation never fails; "
            "fresh memory holds arbitrary bytes; use after free, double free and out-of-bounds accesses are violations)",
            "fprintf(stderr) and PyErr_SetString: no effect"],
-    bounds=dict(quick=dict(pages=2, page_sizes="(2,2) (1,3) (0,2)", scripts="17 (layout, byte order, script) combinations, 1-3 "
-                           "operations each", query_timeout_s=20),
+    bounds=dict(quick=dict(pages="2 (one 3-page task)", page_sizes="(2,2) (1,3) (0,2) (1,1,1)", scripts="18 (layout, byte order, "
+                           "script) combinations, 1-3 operations each", query_timeout_s=20),
                 thorough=dict(pages="2 and 3", page_sizes="(2,2) (4,4) (1,3) (0,2) (2,0) (3,1) (4,1); 3 pages: (2,2,2) (1,0,3) with 6 "
                               "scripts", scripts=17, byte_orders="both for typed accesses on (2,2) (4,4) (1,3)", query_timeout_s=60,
                               task_budget_s=600)),
@@ -74,6 +74,7 @@ QUICK = [
     ('le', (2, 2), ['ISMAPPED3']),
     ('le', (1, 3), ['W16', 'R32']), ('le', (1, 3), ['HW2', 'HR4']), ('le', (0, 2), ['W16', 'R16']), ('le', (0, 2), ['ISMAPPED3']),
     ('be', (2, 2), ['W16', 'R16']), ('be', (2, 2), ['W32', 'R8']),
+    ('le', (1, 1, 1), ['W32']),          # a write that crosses a tiny middle page: three pages touched by one access
 ]
 SCRIPTS_T = [
     ['W32', 'R32'], ['W16', 'R64'], ['W64', 'R8'], ['W8', 'R16'], ['W16', 'W32', 'R16'],
@@ -157,6 +158,7 @@ class Run(object):
         self.reads = []          # (A, n) since last reset
         self.writes = []
         self.viol = z3.BoolVal(False)       # expected EXCEPT_ACCESS_VIOL
+        self.bp_raised = z3.BoolVal(False)  # expected EXCEPT_BREAKPOINT_MEMORY so far (sticky)
         self.mem_known = True
         self.straddle = False
         self.vmty = ('named', 'struct.vm_mngr_t')
@@ -298,13 +300,14 @@ class Run(object):
         if code == 'CHK':
             self.it.call('check_memory_breakpoint', [self.vm])
             self.log.append("check_memory_breakpoint()")
-            hit = []
+            hit = [self.bp_raised]
             for bp in self.bps:
                 for (a, n) in self.reads:
                     hit.append(z3.And((bp['access'] & BP_READ) != 0, z3.ULT(bp['ad'], a + n), z3.ULT(a, bp['ad'] + bp['size'])))
                 for (a, n) in self.writes:
                     hit.append(z3.And((bp['access'] & BP_WRITE) != 0, z3.ULT(bp['ad'], a + n), z3.ULT(a, bp['ad'] + bp['size'])))
-            want = z3.Or(*hit) if hit else z3.BoolVal(False)
+            want = z3.Or(*hit)
+            self.bp_raised = want          # the flag is sticky: reset_memory_access() forgets the ranges, not the exception
             got = (self.access_flags() & EXCEPT_BREAKPOINT_MEMORY) != 0
             self.ob('breakpoint-iff-overlap', got == want, dict(log=list(self.log)))
             return
@@ -337,6 +340,13 @@ class Run(object):
             bits = int(arg)
             n = bits // 8
             addrs = [a + i for i in range(n)]
+            # an access whose first byte lies in a breakpoint of its kind raises the exception at once (when the access reaches
+            # the breakpoint test: first page mapped with the needed permission); it overlaps the breakpoint in any case
+            need = BP_WRITE if kind == 'W' else BP_READ
+            perm = PAGE_WRITE if kind == 'W' else PAGE_READ
+            for bp in self.bps:
+                self.bp_raised = z3.Or(self.bp_raised, z3.And((bp['access'] & need) != 0, self.allowed(a, perm),
+                                                              z3.ULE(bp['ad'], a), z3.ULT(a, bp['ad'] + bp['size'])))
             if kind == 'W':
                 v = self.sym('V%d' % k, bits)
                 ok = z3.And(*[self.allowed(x, PAGE_WRITE) for x in addrs])
@@ -571,17 +581,19 @@ def model_check(t, inp, out):
     obs = {(l[0], int(l[1])): l[2:] for l in out if l[0] in ('READ', 'HW', 'HR', 'ISMAPPED')}
     big = t['sex'] == 'be'
     bp = None
+    raised = False
     for k, code in enumerate(t['script']):
         a = g('A%d' % k, 64)
         if code == 'BP':
             bp = (g('bp_ad', 64), g('bp_size', 3), g('bp_acc', 2))
         elif code == 'CHK':
-            want = False
+            want = raised
             if bp:
                 for (x, n) in reads:
                     want |= bool(bp[2] & 1) and bp[0] < x + n and x < bp[0] + bp[1]
                 for (x, n) in writes:
                     want |= bool(bp[2] & 2) and bp[0] < x + n and x < bp[0] + bp[1]
+            raised = want
             got = [int(l[1]) for l in out if l[0] == 'BPFLAG']
             if got and bool(got[-1]) != want:
                 problems.append("breakpoint flag %d, accesses overlap the breakpoint: %s" % (got[-1], want))
@@ -603,6 +615,8 @@ def model_check(t, inp, out):
             addrs = [(a + i) & M for i in range(n)]
             need = 2 if code[0] == 'W' else 1
             ok = all(x in mem and perm[x] & need for x in addrs)
+            if bp and (bp[2] & need) and a in mem and (perm[a] & need) and bp[0] <= a < bp[0] + bp[1]:
+                raised = True
             if code[0] == 'W':
                 writes.append((a, n))
                 v = g('V%d' % k, 8 * n)
